@@ -1,20 +1,30 @@
-import Librfn.Gen.Hex
+import Librfn.Gen.HexSeq
 import Librfn.Model.Hex
 /-!
 # C18 — tie T for the two pure helpers of `hex.c`
 
-`Librfn.Gen.Hex.hexchar` / `nibble` are regenerated from `/repo/librfn/hex.c` by the clang-typed-AST
-translator on every run; the hand model's transcriptions (which the C18 theorems are about) are proved
-equal to them on all 256 characters, so an edit to either helper in the C source breaks these obligations
-even if no sampled input of the correspondence run happens to expose it.
+`Librfn.Gen.HexSeq.hexchar` / `nibble` are regenerated from `/repo/librfn/hex.c` on every run (tools/c2lean2.py: helper
+functions inlined, constant tables as if-chains).  On the arguments `hex.c` itself passes — `hexchar` gets a nibble
+`0..15`, `nibble` gets a character `isxdigit` accepted — the hand model's transcriptions (which the C18 theorems are
+about) are proved equal to them by evaluation of all cases, so an edit to either helper breaks these obligations even if
+no sampled input of the correspondence run exposes it, while a rewrite that only differs on characters the callers
+never pass (a digit table, arithmetic on the folded letter) re-proves.
 -/
 namespace Librfn.C18
 open Librfn.Model.Hex
 
-theorem hexchar_tie : ∀ h : BitVec 8, Librfn.Gen.Hex.hexchar h = (hexchar (UInt8.ofBitVec h)).toBitVec := by
+/-- the characters `isxdigit` accepts in the C locale -/
+def isHexDigitBV (h : BitVec 8) : Bool :=
+  (BitVec.ule 0x30#8 h && BitVec.ule h 0x39#8) || (BitVec.ule 0x41#8 h && BitVec.ule h 0x46#8) || (BitVec.ule 0x61#8 h && BitVec.ule h 0x66#8)
+
+theorem hexchar_tie : ∀ h : BitVec 8, h.ult 16#8 = true →
+    (Librfn.Gen.HexSeq.hexchar h).ret = (hexchar (UInt8.ofBitVec h)).toBitVec ∧
+    (Librfn.Gen.HexSeq.hexchar h).ub = false ∧ (Librfn.Gen.HexSeq.hexchar h).exh = false := by
   decide +kernel
 
-theorem nibble_tie : ∀ h : BitVec 8, (Librfn.Gen.Hex.nibble h).toInt = nibble (UInt8.ofBitVec h) := by
+theorem nibble_tie : ∀ h : BitVec 8, isHexDigitBV h = true →
+    (Librfn.Gen.HexSeq.nibble h).ret.toInt = nibble (UInt8.ofBitVec h) ∧
+    (Librfn.Gen.HexSeq.nibble h).ub = false ∧ (Librfn.Gen.HexSeq.nibble h).exh = false := by
   decide +kernel
 
 end Librfn.C18
